@@ -170,6 +170,8 @@ impl Method for PhoneticMethod {
                 // An unreadable file is treated as an empty one.
                 self.suggestion.user_autocorrect =
                     serde_json::from_slice(&read(&mut file)).unwrap_or_default();
+                // The cached suggestions were made with the old entries.
+                self.suggestion.clear_cache();
                 self.modified = modified;
             }
         }
